@@ -10,9 +10,31 @@ From FFS Require Import Base.Res Base.Bytes Gen.AbiConsts AbiType.Syntax AbiType
 Import ListNotations.
 
 (* what a generated schema looks like, as far as [members_of] is concerned *)
+(* every level of the items chain declares a JSON type *)
+Fixpoint chain_declared (s : schema) : Prop :=
+  match s with
+  | Schema _ _ _ _ items =>
+      declared_json_type s <> None /\ match items with None => True | Some it => chain_declared it end
+  end.
+
+Lemma chain_elems : forall it t, chain_declared it -> elems_declared it t.
+Proof.
+  induction it as [t0 o d props items HP HI] using schema_ind'. intros t [D C].
+  cbn [elems_declared]. split; [exact D|]. destruct (ends_with_rbracket t); [|exact I].
+  destruct items as [it'|]; [|exact I]. cbn in HI. apply HI. exact C.
+Qed.
+
+Lemma chain_elements t items :
+  match items with None => True | Some it => chain_declared it end -> elements_declared t items.
+Proof.
+  intros C. unfold elements_declared. destruct (ends_with_rbracket t); [|exact I].
+  destruct items as [it|]; [|exact I]. apply chain_elems. exact C.
+Qed.
+
 Definition gen_ok (s : schema) : Prop :=
   json_type_declared s /\
-  (bytes_eqb (s_type s) (str "object") = false -> bytes_eqb (s_type s) (str "array") = false -> s_props s = []).
+  (bytes_eqb (s_type s) (str "object") = false -> bytes_eqb (s_type s) (str "array") = false -> s_props s = []) /\
+  chain_declared s.
 
 Definition member_declared (km : bytes * option schema) : Prop :=
   forall m, snd km = Some m -> json_type_declared m.
@@ -20,7 +42,8 @@ Definition member_declared (km : bytes * option schema) : Prop :=
 Lemma set_index_declared i s s' : set_index i s = Ok s' -> json_type_declared s -> json_type_declared s'.
 Proof.
   destruct s as [t o [d|] p it]; cbn [set_index]; intros H JD; [|discriminate]. injection H as <-.
-  inversion JD as [? Hd Hm]; subst. constructor; [exact Hd|exact Hm].
+  inversion JD as [? Hd He Hm]; subst. constructor; [exact Hd| |exact Hm].
+  intros d0 E. cbn [s_details] in E. injection E as <-. cbn [d_type s_items]. exact (He d eq_refl).
 Qed.
 
 Lemma map_set_forall {A} (P : bytes * A -> Prop) k v m : Forall P m -> P (k, v) -> Forall P (map_set k v m).
@@ -50,17 +73,18 @@ Proof. intros A B. apply bytes_eqb_eq in A. apply bytes_eqb_eq in B. subst t. di
 
 Lemma lift_ok child : gen_ok child -> gen_ok (lift child).
 Proof.
-  intros [JD SH]. destruct child as [t o d pr it]. cbn [lift]. split.
-  - constructor; [cbn; discriminate|].
+  intros (JD & SH & CH). destruct child as [t o d pr it]. cbn [lift]. split; [|split].
+  - constructor; [cbn; discriminate|intros d0 _; cbn [s_items]; apply chain_elements; exact CH|].
     change (members_of (Schema jsonArrayType None d [] (Some (Schema t o None pr it))))
       with (elem_members (Schema t o None pr it)).
-    inversion JD as [? _ Hm]; subst. cbn [members_of] in Hm. cbn [s_type s_props] in SH. cbn [elem_members].
+    inversion JD as [? _ _ Hm]; subst. cbn [members_of] in Hm. cbn [s_type s_props] in SH. cbn [elem_members].
     destruct (bytes_eqb t (str "array")) eqn:Ea, (bytes_eqb t (str "object")) eqn:Eo.
     + exfalso. eapply array_not_object; eauto.
     + exact Hm.
     + exact Hm.
     + rewrite (SH eq_refl eq_refl). constructor.
   - intros _ H. discriminate H.
+  - split; [cbn; discriminate|exact CH].
 Qed.
 
 Theorem generated_ok tc : G tc.
@@ -68,7 +92,8 @@ Proof.
   induction tc as [et sfx m n|c k IH|c IH|l IH] using tcomp_ind'; intros p s H.
   - cbn [getSchemaForABIInput] in H.
     destruct (et_json et); cbn in H; injection H as <-;
-      (split; [constructor; [vm_compute; discriminate|apply Forall_nil]|intros _ _; reflexivity]).
+      (split; [constructor; [vm_compute; discriminate|intros d0 _; apply chain_elements; exact I|apply Forall_nil]
+              |split; [intros _ _; reflexivity|split; [vm_compute; discriminate|exact I]]]).
   - change (CFixedArr c k) with (wrap1_tc c (Some k)) in H. rewrite getSchema_wrap1 in H.
     destruct (getSchemaForABIInput p c) as [child| |] eqn:E; cbn [bind] in H; try discriminate.
     injection H as <-. apply lift_ok. apply (IH p child E).
@@ -77,11 +102,12 @@ Proof.
     injection H as <-. apply lift_ok. apply (IH p child E).
   - rewrite getSchema_tuple in H.
     destruct (tuple_props l (fp_comps p) 0 []) as [props| |] eqn:E; cbn [bind] in H; try discriminate.
-    injection H as <-. split.
-    + constructor; [cbn; discriminate|].
+    injection H as <-. split; [|split].
+    + constructor; [cbn; discriminate|intros d0 _; apply chain_elements; exact I|].
       change (members_of (Schema jsonObjectType None (Some (det_of p)) props None)) with props.
       apply (tuple_props_declared l IH (fp_comps p) 0%nat [] props); [constructor|exact E].
     + intros H. discriminate H.
+    + split; [cbn; discriminate|exact I].
 Qed.
 
 Theorem generated_in_domain p ns :
